@@ -526,6 +526,91 @@ def run_storage(case):
                     break
             if len(v) > 5:
                 break
+    # ---- a real kernel fault: the file-size limit of the process (RLIMIT_FSIZE, SIGXFSZ
+    # ignored) makes write(2) store only part of a buffer and fail with EFBIG afterwards -
+    # the behaviour of a full disk or quota, which no Python-level exception can imitate
+    if case["op"] in ("store_chunk_new", "store_chunk_overwrite", "store_file",
+                      "create+write", "store+close", "file_ops") and len(v) <= 5:
+        import resource
+        import signal
+        for limit in (0, 1, 7, 40, 100, 250, 600, 1500, 5000):
+            top = tempfile.mkdtemp(prefix="c18l-")
+            try:
+                tmp = os.path.join(top, "tmp")
+                os.makedirs(tmp)
+                sc = Scenario(np, case, top)
+                sc.prepare()
+                rfd, wfd = os.pipe()
+                pid = os.fork()
+                if pid == 0:
+                    msg = "died"
+                    try:
+                        os.close(rfd)
+                        tempfile.tempdir = tmp
+                        signal.signal(signal.SIGXFSZ, signal.SIG_IGN)
+                        resource.setrlimit(resource.RLIMIT_FSIZE, (limit, limit))
+                        try:
+                            sc.operate()
+                            msg = "returned"
+                        except BaseException as exc:  # noqa: BLE001
+                            msg = "raised:" + ("DataAccessError" if isinstance(
+                                exc, DataAccessError) else "OSError" if isinstance(
+                                exc, OSError) else type(exc).__name__) + ":" + str(exc)[:120]
+                    finally:
+                        os.write(wfd, msg.encode("utf-8", "replace"))
+                        os._exit(0)
+                os.close(wfd)
+                with os.fdopen(rfd, "rb") as fh:
+                    msg = fh.read().decode("utf-8", "replace")
+                os.waitpid(pid, 0)
+                obs["size_limit_runs"] = obs.get("size_limit_runs", 0) + 1
+                sc.pending = dict(_pending_of(np, case, sc))
+                audit = sc.audit()
+                label = f"file-size limit of {limit} bytes"
+                if msg.startswith("returned"):
+                    obs["size_limit_returned"] = obs.get("size_limit_returned", 0) + 1
+                    for it, want in sc.pending.items():
+                        got = audit.get(it)
+                        if want is None:
+                            ok = got is not None and got[0] == "ok"
+                        else:
+                            ok = got is not None and got[0] == "ok" and _same_value(
+                                np, got[1], want)
+                        if not ok:
+                            v.append({"kind": "short-write-reported-as-success",
+                                      "detail": f"{ctx}: {label}: the operation returned "
+                                      f"normally but {it} is "
+                                      f"{(got[0] + ' ' + str(got[1])[:40]) if got else None}"
+                                      " for a fresh reader"})
+                            break
+                else:
+                    obs["size_limit_raised"] = obs.get("size_limit_raised", 0) + 1
+                    cls = msg.split(":")[1] if ":" in msg else msg
+                    if cls not in ("DataAccessError", "OSError"):
+                        v.append({"kind": "fault-surfaces-as-unrelated-exception",
+                                  "detail": f"{ctx}: {label}: {msg[:200]}"})
+                for it, want in sc.model.items():
+                    if it in sc.pending:
+                        continue
+                    got = audit.get(it)
+                    obs["survivor_checks"] += 1
+                    if got is None or got[0] != "ok" or not _same_value(np, got[1], want):
+                        v.append({"kind": "earlier-data-lost-or-changed-after-fault",
+                                  "detail": f"{ctx}: {label}: item {it} now "
+                                  f"{got[0] if got else None}"})
+                        break
+                for it, got in audit.items():
+                    if it[0] == "chunk" and got[0] == "ok":
+                        cands = [x for x in (sc.model.get(it), sc.pending.get(it))
+                                 if x is not None]
+                        if not any(_same_value(np, got[1], c) for c in cands):
+                            v.append({"kind": "wrong-voxels-decoded-after-fault",
+                                      "detail": f"{ctx}: {label}: chunk {it[1:]} decodes to "
+                                      "values that were never stored"})
+            finally:
+                shutil.rmtree(top, ignore_errors=True)
+            if len(v) > 5:
+                break
     return {"violations": v[:6], "obs": obs,
             "evals": 1 + obs["fault_runs"] + obs["crash_runs"],
             "distinct_disjoint": obs["faults_fired"] + obs["crashes_fired"],
@@ -850,5 +935,7 @@ def gates(obs, tier):
         "absorbed_faults_seen": obs.get("absorbed_faults", 0) > 0,
         "data_access_errors_seen": obs.get("fault_outcomes", {}).get("DataAccessError", 0) > 100,
         "http_faults_fired": obs.get("http_faults_fired", 0) > 30,
+        "kernel_file_size_limit_faults": obs.get("size_limit_raised", 0) > 50
+        and obs.get("size_limit_returned", 0) > 0,
         "on_disk_buffer_files_intercepted": ck.get("unlink", 0) > 0,
     }
